@@ -373,6 +373,9 @@ class Vector():
 		# Python Date interceptors
 		if target_type is date:
 			def caster(x):
+				if isinstance(x, datetime):
+					# a datetime is a date instance, but a <date> column holds days: drop the time
+					return x.date()
 				if isinstance(x, date):
 					return x
 				return date.fromisoformat(x)
